@@ -118,7 +118,11 @@ def _eval_node(node: ast.AST, context: dict[str, Any]) -> Any:
         else:
             key = _eval_node(node.slice, context)
         if isinstance(value, dict):
-            return value.get(key)
+            try:
+                return value.get(key)
+            except TypeError as e:
+                # e.g. d[some_list]: an unhashable key must not escape as TypeError
+                raise ExpressionError(f"Cannot use {type(key).__name__} as a subscript key: {e}") from e
         if isinstance(value, (list, tuple)) and isinstance(key, int):
             try:
                 return value[key]
@@ -155,7 +159,11 @@ def _eval_node(node: ast.AST, context: dict[str, Any]) -> Any:
         unary_func = _SAFE_UNARY_OPS.get(type(node.op))
         if unary_func is None:
             raise ExpressionError(f"Unsupported unary operator: {type(node.op).__name__}")
-        return unary_func(operand)
+        try:
+            return unary_func(operand)
+        except TypeError as e:
+            # e.g. -x with x missing (None) or a string: callers only catch ExpressionError
+            raise ExpressionError(f"Cannot apply {type(node.op).__name__} to {type(operand).__name__}: {e}") from e
 
     if isinstance(node, ast.IfExp):
         test = _eval_node(node.test, context)
